@@ -86,7 +86,7 @@ def compare(V, behs, seeds, what, keep, extra_tables=False, ctor=None, run=None,
     for b in behs:
         for sd in seeds:
             h = sd + len(b["hist"]) + sum(len(str(a)) for a in b["hist"])
-            nm = T.name_map(sd + h % 7, salt=h % 97)     # all seven name pools for every seed, the drawn pools re-drawn per behaviour
+            nm = T.name_map(sd + h % 8, salt=h % 97)     # all eight name pools for every seed, the drawn pools re-drawn per behaviour
             layout = layouts[h % len(layouts)]
             before, after = [], []
             if layout == "noterm":
